@@ -139,6 +139,7 @@ unsigned lookup_component(const Components& compon, const f8String& name);
 void binary_report();
 string bintoaschex(const string& from);
 uint32_t group_hash(const MessageSpec& p1);
+bool same_group_definition(const MessageSpec& p1, const MessageSpec& p2);
 const MessageSpec *find_group(const CommonGroupMap& globmap, int& vers, unsigned tp, uint32_t key);
 void generate_group_traits(const FieldSpecMap& fspec, const MessageSpec& ms, const string& gname, const string& prefix, ostream& outp);
 void generate_export( ostream& to, const string& ns );
@@ -670,7 +671,10 @@ unsigned parse_groups(MessageSpec& ritr, const string& name,
                   CommonGroupMap::iterator cgitr(globmap.find(fs_itr->first));
                   if (cgitr == globmap.end())
                      cgitr = globmap.insert(make_pair(fs_itr->first, CommonGroups())).first;
-                  const uint32_t hv(group_hash(gresult.first->second));
+                  uint32_t hv(group_hash(gresult.first->second));
+                  // the hash is only a shortcut: a different definition that happens to hash alike takes the next free key
+                  for (CommonGroups::const_iterator hitr(cgitr->second.find(hv));
+                     hitr != cgitr->second.end() && !same_group_definition(hitr->second, gresult.first->second); hitr = cgitr->second.find(++hv));
                   gresult.first->second._hash = hv;
                   cgitr->second.insert(make_pair(hv, gresult.first->second));
                   CommonGroups::iterator cghitr(cgitr->second.find(hv));
@@ -1552,6 +1556,22 @@ uint32_t group_hash(const MessageSpec& p1)
       result = rothash(result, group_hash(pp.second));
 
    return result;
+}
+
+//-------------------------------------------------------------------------------------------------
+bool same_group_definition(const MessageSpec& p1, const MessageSpec& p2)
+{
+   const Presence& f1(p1._fields.get_presence()), &f2(p2._fields.get_presence());
+   if (f1.size() != f2.size() || p1._groups.size() != p2._groups.size())
+      return false;
+   for (Presence::const_iterator i1(f1.begin()), i2(f2.begin()); i1 != f1.end(); ++i1, ++i2)
+      if (i1->_fnum != i2->_fnum || i1->_ftype != i2->_ftype || i1->_pos != i2->_pos || i1->_component != i2->_component
+         || i1->_field_traits.get() != i2->_field_traits.get())
+            return false;
+   for (GroupMap::const_iterator g1(p1._groups.begin()), g2(p2._groups.begin()); g1 != p1._groups.end(); ++g1, ++g2)
+      if (g1->first != g2->first || !same_group_definition(g1->second, g2->second))
+         return false;
+   return true;
 }
 
 //-------------------------------------------------------------------------------------------------
